@@ -100,7 +100,7 @@ func cmdFuncs(args []string) int {
 		}
 	}
 	sort.Slice(fis, func(i, j int) bool { return fis[i].Key < fis[j].Key })
-	p := &Prover{Lib: lib, WorkDir: filepath.Join(verifDir, "work"), Timeout: time.Duration(*to) * time.Second, Par: runtime.NumCPU()}
+	p := &Prover{Lib: lib, WorkDir: filepath.Join(verifDir, "work"), Timeout: time.Duration(*to) * time.Second, Par: (runtime.NumCPU() + 1) / 2}
 	var obs []*Ob
 	globals := map[string][]string{}
 	for _, fi := range fis {
